@@ -75,7 +75,7 @@ def impl(case):
                     return (200, hdr, b'')
                 rsps.add_callback(responses.HEAD, URL, callback=head_cb)
             try:
-                ret = DS.download_file(URL, path)
+                ret = DS.download_file(URL, str(path) if case.get('pathkind') == 'str' else path)
                 result = 'skipped' if ret is not None else 'done'
                 if ret is not None and str(ret) != str(path):
                     result = 'returned:%r' % (ret,)
@@ -142,6 +142,7 @@ def tally(rep, case, impl_res, ans):
         rep.count('result:' + impl_res['ok']['result'])
         rep.count('data_requests:%d' % impl_res['ok']['log'].count('data'))
     rep.count('size_probe(HEAD):%s' % case.get('head', 'none'))
+    rep.count('output_path:%s' % case.get('pathkind', 'path'))
     rep.count('prior:%s' % case['prior'])
     rep.count('body:' + case.get('body', 'normal'))
 
@@ -174,7 +175,8 @@ def gen(tier, rng):
                         if q and ld == 3 and ls == 3 and (hash((ds, ss)) % 3):
                             continue
                         k += 1
-                        yield dict(p=PID, prior=prior, ds=list(ds), ss=list(ss), head=HEADS[k % 7])
+                        yield dict(p=PID, prior=prior, ds=list(ds), ss=list(ss), head=HEADS[k % 7],
+                                   pathkind=['path', 'str'][(k // 7) % 2])
                         if not q and ld <= 3:
                             yield dict(p=PID, prior=prior, ds=list(ds), ss=list(ss), head=HEADS[(k + 3) % 7])
     for body in ('empty', 'one', 'big'):
@@ -183,4 +185,4 @@ def gen(tier, rng):
                 for ss in itertools.product([1, 2, 0], repeat=2 if q else 3):
                     k += 1
                     yield dict(p=PID, prior=prior, ds=list(ds), ss=list(ss), body=body, with_name=bool(len(ss) % 2),
-                               head=HEADS[k % 7])
+                               head=HEADS[k % 7], pathkind=['path', 'str'][(k // 7) % 2])
